@@ -347,6 +347,29 @@ def addNewOnes (s : State) (shape : Shape) : List (Label × Nat) → State × Li
     let r2 := addNewOnes r.1 shape rest
     (r2.1, r.2 ++ r2.2.1, r2.2.2)
 
+/-- Stage 1 of `update_values_from_data`: non-coordinate components whose label does not occur in
+the other dataset are removed, in table order. -/
+def ufRemove (s : State) (newLabels : List Label) : Res :=
+  removeAll s (((nonCoord s).filter fun c => !newLabels.contains (s.label c.cid)).map (·.cid))
+
+/-- Stage 2 (only when the number of dimensions changes, repair F13): `self.coords = None`, then the
+pixel components are removed and `_pixel_component_ids` emptied. -/
+def ufDropCoords (s1 : State) : Res :=
+  (setCoords s1 none).bind fun s2 =>
+    let r := removeAll s2 s2.pix
+    ({ r.1 with pix := [] }, r.2)
+
+/-- Stage 3: `_shape = data._shape`, and new pixel components when the number of dimensions
+changed. -/
+def ufReshape (s2 : State) (sh : Shape) (ndimChanged : Bool) : Res :=
+  let s3 := { s2 with shape := sh }
+  if ndimChanged then newPixels s3 sh.length else (s3, [])
+
+/-- Last stage: label, coordinates, `NumericalDataChangedMessage`. -/
+def ufFinish (s5 : State) (o : Other) : Res :=
+  ((setLabelImpl s5 o.label).bind (setCoords · o.coords)).bind fun s7 =>
+    (s7, if s7.hub then [.numerical none] else [])
+
 /-- `update_values_from_data(other)` with repair F13: coordinate components are not matched by
 label, and pixel / world components are re-generated when the number of dimensions changes. -/
 def updateFromImpl (s : State) (o : Other) : Out :=
@@ -355,26 +378,17 @@ def updateFromImpl (s : State) (o : Other) : Out :=
   if !decide oldLabels.Nodup then fail s .value
   else if !decide newLabels.Nodup then fail s .value
   else
-    let r1 := removeAll s (((nonCoord s).filter fun c => !newLabels.contains (s.label c.cid)).map (·.cid))
     let ndimChanged := o.shape.length != s.shape.length
-    let r2 := r1.bind fun s1 =>
-      if ndimChanged then
-        (setCoords s1 none).bind fun s2 =>
-          let r := removeAll s2 s2.pix
-          ({ r.1 with pix := [] }, r.2)
-      else (s1, [])
-    let r3 := r2.bind fun s2 =>
-      let s3 := { s2 with shape := o.shape }
-      if ndimChanged then newPixels s3 s3.shape.length else (s3, [])
+    let r3 := ((ufRemove s newLabels).bind fun s1 =>
+      if ndimChanged then ufDropCoords s1 else (s1, [])).bind (ufReshape · o.shape ndimChanged)
     let both := oldLabels.filter newLabels.contains
     let s4 := { r3.1 with comps := applyRefresh r3.1 both o }
     let r5 := addNewOnes s4 o.shape (o.comps.filter fun p => !oldLabels.contains p.1)
     match r5.2.2 with
     | some e => ⟨r5.1, r3.2 ++ r5.2.1, some e⟩
     | none =>
-      let r6 : Res := Res.bind (r5.1, r3.2 ++ r5.2.1) (setLabelImpl · o.label)
-      let r7 := r6.bind (setCoords · o.coords)
-      ok (r7.bind fun s7 => (s7, if s7.hub then [.numerical none] else []))
+      let r6 := ufFinish r5.1 o
+      ok (r6.1, r3.2 ++ r5.2.1 ++ r6.2)
 
 def addDerivedImpl (s : State) (viaLink : Bool) (l : Label) (deps : List Cid) : Out :=
   if viaLink then
@@ -640,11 +654,14 @@ def FamOk (comps : List Comp) (ids : List Cid) (mk : Nat → Kind) (ndim : Nat) 
   (∀ i, (h : i < ids.length) → ∃ c ∈ comps, c.cid = ids[i] ∧ c.kind = mk i) ∧
   (∀ c ∈ comps, ∀ a, c.kind = mk a → ids[a]? = some c.cid)
 
-structure Inv (s : State) : Prop where
+/-- The invariant, with the shape every stored array must have as a parameter (`Inv` instantiates it
+with the dataset's own shape; `update_values_from_data` passes through states whose arrays still
+have the previous shape). -/
+structure InvG (sh : Shape) (s : State) : Prop where
   /-- component identifiers are unique -/
   nodup : (cids s.comps).Nodup
-  /-- every stored array has the dataset's shape -/
-  shapes : ∀ c ∈ s.comps, c.kind = .main → c.shape = s.shape
+  /-- every stored array has the shape `sh` -/
+  shapes : ∀ c ∈ s.comps, c.kind = .main → c.shape = sh
   /-- exactly one pixel attribute per dimension -/
   pixel : FamOk s.comps s.pix .pixel s.shape.length
   /-- one world attribute per dimension iff coordinates are set -/
@@ -656,6 +673,11 @@ structure Inv (s : State) : Prop where
   links : s.nlinks = if s.coords.isSome then 2 * s.shape.length else 0
   /-- identities in use were created before `next` -/
   fresh : (∀ c ∈ cids s.comps, c < s.next) ∧ (∀ c ∈ s.linked, c < s.next)
+
+/-- The state invariant of C17: unique identifiers, every array has the dataset's shape, one pixel
+attribute per dimension, one world attribute per dimension iff coordinates are set, two links per
+dimension iff coordinates are set. -/
+abbrev Inv (s : State) : Prop := InvG s.shape s
 
 /-! ## the part of the API the theorems cover -/
 
@@ -732,5 +754,25 @@ def classifyArgs (s : State) : Op → Construct
 
 def classify (s : State) (op : Op) : Construct :=
   if op.ids.all (· < s.next) then classifyArgs s op else .unknownId
+
+/-! ## histories -/
+
+/-- State after a history of calls. -/
+def run (s : State) : List Op → State
+  | [] => s
+  | op :: ops => run (step s op).state ops
+
+/-- Every call of the history lies inside the hypothesis of the `_partial` theorems (classified
+at the state it is issued in). -/
+def allOk (s : State) : List Op → Bool
+  | [] => true
+  | op :: ops => classify s op == .ok && allOk (step s op).state ops
+
+/-- What the harness records along a history. -/
+def trace (probe : List Label) (s : State) : List Op → List Step
+  | [] => []
+  | op :: ops =>
+    let out := step s op
+    ⟨op, obs probe out.state, out.msgs, out.err⟩ :: trace probe out.state ops
 
 end GlueVerif.DataStruct
